@@ -603,7 +603,7 @@ class StructuralFam:
 
 class RecalcFam:
     PROPS = ["C05", "C07", "C31"]
-    ASSUMPTIONS = ["workbook of Recalc.tla: column A1..A4 plus B1, C1 of Sheet1 and Sheet2!A1; cell contents from a menu of ~20 per cell: empty, numbers 0 / 2 / 3, =ref to any cell (cross-sheet included), =a+b, =SUM(Sheet1!A1:A4) (self-including when typed in the column), three lazy =IF(c>0,a,b) shapes incl. self-reference in one branch, =SEQUENCE(c) with the height read from another cell, =SEQUENCE(1,c) at A1 spilling to the right",
+    ASSUMPTIONS = ["workbook of Recalc.tla: column A1..A4 plus B1, C1 of Sheet1 and Sheet2!A1; cell contents from a menu of ~20 per cell: empty, numbers 0 / 2 / 3, =ref to any cell (cross-sheet included), =a+b, =SUM(Sheet1!A1:A4) and =COUNT(Sheet1!A1:A4) (self-including when typed in the column; COUNT ignores errors, so a cycle through it is read off the static reads), three lazy =IF(c>0,a,b) shapes incl. self-reference in one branch, =SEQUENCE(c) with the height read from another cell, =SEQUENCE(1,c) at A1 spilling to the right",
                    "Val in Recalc.tla is the demanded value: recursive evaluation with the set of cells in progress (#CIRC! on re-entry, propagated to readers), SUM skipping empty cells, SEQUENCE(n) filling n cells downward or #SPILL! when user content is in the way, #CALC!-class error for n <= 0; no verdict where a spill height depends on its own spill",
                    "behaviours: every history of 2 edits from the empty workbook (exhaustive, 8 281) and seeded random histories of 6 edits (quick 12 000, thorough 8 edits x 160 000) produced by TLC in simulation mode; after every edit every cell's value and spill membership (get_cell_array_structure) is compared",
                    "C07: the final workbook of every behaviour is rebuilt from scratch in forward / reverse / rotated input order x {evaluate after each input, evaluation paused until the end, to_bytes/from_bytes after the first input}, evaluated twice; all variants must show what the history shows",
